@@ -44,6 +44,8 @@ const modPath = "github.com/nginx/kubernetes-ingress/"
 
 var loadPatterns = []string{
 	"./internal/k8s", "./internal/configs", "./internal/healthcheck", "./internal/telemetry", "./internal/k8s/secrets", "./internal/nginx",
+	// the validators are handed informer-store objects by the worker and by observers (telemetry, leader callbacks)
+	"./pkg/apis/configuration/validation",
 }
 
 // owner types whose fields are the shared locations of interest
@@ -225,6 +227,7 @@ type analyzer struct {
 	unknown    []string
 	fieldKinds map[string]string   // field key -> map | slice | pointer | other
 	summary    map[*node]map[mutFact]bool
+	mutPos     map[*node]map[mutFact]map[token.Pos]*node // where the writes behind a summary fact are made
 	retFresh   map[*node][]bool // from the previous pass over all functions
 	entryLit   map[*node]bool   // function literals that are entry points (run by another goroutine, not where written)
 	reachMemo  map[string]map[string]bool
@@ -246,6 +249,8 @@ func (a *analyzer) rel(pos token.Pos) (string, int) {
 	p := a.fset.Position(pos)
 	f := p.Filename
 	if i := strings.Index(f, "/internal/"); i >= 0 {
+		f = f[i+1:]
+	} else if i := strings.Index(f, "/pkg/apis/"); i >= 0 {
 		f = f[i+1:]
 	}
 	return f, p.Line
@@ -1845,6 +1850,7 @@ func (w *walker) objMut(e ast.Expr, L *lockset, container bool) {
 	case argFresh:
 	case argParam:
 		w.n.mut[mutFact{pi, c.key}] = true
+		w.a.notePos(w.n, mutFact{pi, c.key}, e.Pos(), w.n)
 	case argNonFresh:
 		if c.key != "" {
 			w.emitAccess(c.key, true, e.Pos(), *L)
@@ -1892,6 +1898,20 @@ func (w *walker) wholeReads(call *ast.CallExpr, L *lockset) {
 	}
 }
 
+func (a *analyzer) notePos(n *node, f mutFact, pos token.Pos, at *node) bool {
+	if a.mutPos[n] == nil {
+		a.mutPos[n] = map[mutFact]map[token.Pos]*node{}
+	}
+	if a.mutPos[n][f] == nil {
+		a.mutPos[n][f] = map[token.Pos]*node{}
+	}
+	if _, ok := a.mutPos[n][f][pos]; ok {
+		return false
+	}
+	a.mutPos[n][f][pos] = at
+	return true
+}
+
 // summaries: which parameters a function writes through, directly or by passing them on
 func (a *analyzer) summarise() {
 	var all []*node
@@ -1906,6 +1926,7 @@ func (a *analyzer) summarise() {
 		for _, n := range all {
 			n.events, n.mut, n.done, n.retFresh, n.hasRet = nil, map[mutFact]bool{}, false, nil, false
 		}
+		a.mutPos = map[*node]map[mutFact]map[token.Pos]*node{}
 		for _, n := range all {
 			a.analyse(n)
 		}
@@ -1950,6 +1971,11 @@ func (a *analyzer) summarise() {
 						if !a.summary[n][nf] {
 							a.summary[n][nf] = true
 							changed = true
+						}
+						for pos, at := range a.mutPos[t][f] {
+							if a.notePos(n, nf, pos, at) {
+								changed = true
+							}
 						}
 					}
 				}
@@ -2044,6 +2070,10 @@ func (c *collector) visit(entry string, multi bool, cond string, n *node, ctx lo
 					}
 					if strings.HasPrefix(k, "object:") {
 						c.record(entry, multi, cond, n, k, true, "write", eff, ev.pos, append(append([]string(nil), chain...), trimKey(t.key)))
+						// ... and the statements that do the writing, as further sites of the same row
+						for pos, at := range c.a.mutPos[t][f] {
+							c.record(entry, multi, cond, at, k, true, "write", eff, pos, nil)
+						}
 					}
 				}
 				if ev.isGo {
@@ -2086,7 +2116,7 @@ func main() {
 	sort.Slice(pkgs, func(i, j int) bool { return pkgs[i].PkgPath < pkgs[j].PkgPath })
 	a := &analyzer{fset: pkgs[0].Fset, pkgs: pkgs, byFunc: map[*types.Func]*node{}, byLit: map[*ast.FuncLit]*node{},
 		byKey: map[string]*node{}, fieldFuncs: map[*types.Var][]*node{}, litsIn: map[string][]*node{},
-		ifaceCache: map[string][]*node{}, goConds: map[string][]string{}, unknown: []string{}, fieldKinds: map[string]string{}, summary: map[*node]map[mutFact]bool{}, retFresh: map[*node][]bool{}, entryLit: map[*node]bool{}, handlerOf: map[*node]string{}, reachMemo: map[string]map[string]bool{}}
+		ifaceCache: map[string][]*node{}, goConds: map[string][]string{}, unknown: []string{}, fieldKinds: map[string]string{}, summary: map[*node]map[mutFact]bool{}, mutPos: map[*node]map[mutFact]map[token.Pos]*node{}, retFresh: map[*node][]bool{}, entryLit: map[*node]bool{}, handlerOf: map[*node]string{}, reachMemo: map[string]map[string]bool{}}
 	a.index()
 	for _, e := range entries {
 		for _, k := range e.LitsIn {
